@@ -73,3 +73,15 @@ Theorem C09_conflict_free_exact : forall U P, WF U -> forall db G,
   (forall n, In (CCands n) (e_calls st) <->
      exists so, (so = None \/ exists s, so = Some s /\ In s G) /\ In n (mentioned U P so)).
 Proof. exact conflict_free_exact. Qed.
+
+(* successive solves on one solver (possibly different problems): the second
+   solve starts from the cache the first one left; over both, no candidates /
+   dependencies / filter request is repeated.  Tied by running the model's
+   second solve from the model's cache after the first (enc2). *)
+Theorem C09_two_solves_once : forall U P1 P2 evs1 evs2 st1 w1 st2 w2,
+  enc_run U P1 (estate0 cache0) [] [] evs1 = Some (st1, w1) ->
+  enc_run U P2 (estate0 (e_cache st1)) [] [] evs2 = Some (st2, w2) ->
+  let H := e_calls st1 ++ e_calls st2 in
+  NoDup (flat_map EncoderCalls.k_cands H) /\ NoDup (flat_map k_deps H) /\
+  NoDup (flat_map k_match H) /\ NoDup (flat_map k_nonmatch H).
+Proof. exact enc_two_solves_once. Qed.
